@@ -1,11 +1,11 @@
 #!/bin/sh
-# usage: tools/verify_seed.sh <ID> [check ids...]
+# usage: [SEED_WT=<worktree> SEED_NAME=<dir name>] tools/verify_seed.sh <ID> [check ids...]
 # Verify a seeded change left uncommitted in the scratch worktree /tmp/seed_<ID> (tests pass with it,
 # the demonstration fails with it and passes without it), run the checks against it and store it
 # under /verif/seeded/<ID>/.
 ID=$1; shift
-WT=/tmp/seed_$ID
-OUT=/verif/seeded/$ID
+WT=${SEED_WT:-/tmp/seed_$ID}
+OUT=/verif/seeded/${SEED_NAME:-$ID}
 mkdir -p "$OUT"
 git -C "$WT" diff -- edzed > "$OUT/patch.diff"
 [ -s "$OUT/patch.diff" ] || { echo "no change in $WT"; exit 3; }
